@@ -715,16 +715,7 @@ func registerStubs(w *World) {
 		}
 		return nil
 	}
-	S["(*sync.Pool).Get"] = func(in *Interp, fn *ssa.Function, a []Value) Value {
-		st := a[0].(PtrV).R.Load().(*StructV)
-		// the New field is the last field of sync.Pool
-		nf, _ := st.Fields[len(st.Fields)-1].(*FuncV)
-		if nf == nil {
-			return NilIface
-		}
-		return in.callFuncV(nf, nil)
-	}
-	S["(*sync.Pool).Put"] = noop
+	registerSyncStubs(w)
 	S["strings.Fields"] = func(in *Interp, fn *ssa.Function, a []Value) Value {
 		s, ok := in.concStr(a[0])
 		if !ok {
